@@ -225,7 +225,7 @@ func main() {
 	o := vh.ParseFlags()
 	quietLogs()
 	meta := vh.NewMeta("corpus cases; table: a fixed three-target script (snapshot, then update, subtree delete and whole-target removal per target) under all 8 allow/deny row sets x modes {STREAM,ONCE,POLL} x updates_only x target {*,t1,t2}; random: ACL table over 2 users x 3 targets (allow / deny / missing row), user u1/u2/unknown/absent, ACL installed or not, 2-9 initial notifications, one request (STREAM 58% / ONCE / POLL / unknown mode; target * or single, 1-3 subscription paths), STREAM: 2-10 (thorough 2-17) streamed cache operations (single/multi update, atomic, subtree delete, target removal) across allowed and denied targets, 1/5 of them bursts of 2-7 concurrent writes (one writer goroutine per target, no quiescence in between), in 1/8 of the cases the initial walk itself is overlapped by such a burst; POLL: 0-3 triggers with edits. Every case is run with the ACL and without. distinct = distinct inputs; non-trivial = ACL installed, the un-ACL'd run delivered at least one update and the run with the ACL strictly fewer (filtered or rejected)")
-	e := &emitter{dir: o.Out, cf: newCaseFile(), meta: meta, limit: 250, require: "Subscribe.C07Check", twice: true, nontriv: nontrivial}
+	e := &emitter{dir: o.Out, cf: newCaseFile(), meta: meta, limit: 175, require: "Subscribe.C07Check", twice: true, nontriv: nontrivial}
 
 	if o.Replay != "" {
 		cs, err := readCases(o.Replay)
@@ -265,7 +265,7 @@ func main() {
 	meta.Extra["table_cases"] = nt
 
 	r := vh.NewRand(o.Seed)
-	nrand := 2200
+	nrand := 1900
 	if o.Thorough() {
 		nrand = 30000
 	}
